@@ -128,6 +128,10 @@ def eigenbasis_evidence_is_the_blocks_own(ctx, rep, rule: str) -> None:
     expanding locals, `<kf>.factor_matrices_eigenvectors and <kf>.factor_matrices_eigenvectors[0].any()` for the loop's own
     Kronecker-factor variable — not a flag computed from another block, not a Python attribute that a checkpoint does not
     restore (the eigenvectors are checkpointed, all-zero until the first refresh of that block)."""
+    from types import SimpleNamespace
+
+    from ..guards import MISSING, Interp, Raised, Unsupported
+
     repo = ctx.repo
     ci = repo.cls(f"{PL_MOD}:EigenvalueCorrectedShampooPreconditionerList")
     n = 0
@@ -147,20 +151,58 @@ def eigenbasis_evidence_is_the_blocks_own(ctx, rep, rule: str) -> None:
             for c in calls:
                 cn = cfg.node_of(c)
                 conds = [(t, lab) for t, lab in cfg.branch_conditions(cn) if t.kind == "test" and any(t.ast is x for x in ast.walk(loop))] if cn is not None else []
-                for t, lab in conds:
-                    n += 1
-                    test = t.ast.test
-                    for _ in range(3):  # a named condition (`use_eigenbasis = …`) is the condition
-                        if isinstance(test, ast.Name):
-                            ds = A.assignments_to(fi.node, test.id)
-                            if len(ds) == 1:
-                                test = ds[0]
-                                continue
+                if not conds:
+                    continue
+                n += 1
+                # the conjunction of the conditions on the way to the rotation, evaluated for the three states a block can be in
+                # (no eigenvectors at all / all-zero eigenvectors / computed eigenvectors); it may read nothing but this block
+                class _E:  # an eigenvector tensor stand-in
+                    def __init__(self, nz):
+                        self._nz = nz
+
+                    def any(self):
+                        return self._nz
+
+                def hook(it_, c_):
+                    f_ = c_.func
+                    if isinstance(f_, ast.Attribute) and f_.attr == "any" and not c_.args:
+                        b_ = it_.ev(f_.value)
+                        if isinstance(b_, _E):
+                            return b_.any()
+                    return MISSING
+
+                def named(e):  # single-assignment locals of the loop body stand for their definitions (read-only expansion)
+                    import copy as _copy
+
+                    for _ in range(4):
+                        names = {x.id for x in ast.walk(e) if isinstance(x, ast.Name) and isinstance(x.ctx, ast.Load)}
+                        sub = {}
+                        for nm in names:
+                            ds = [s_ for s_ in ast.walk(loop) if isinstance(s_, ast.Assign) and len(s_.targets) == 1 and isinstance(s_.targets[0], ast.Name) and s_.targets[0].id == nm]
+                            if len(ds) == 1 and nm != kf:
+                                sub[nm] = ds[0].value
+                        if not sub:
+                            break
+
+                        class R(ast.NodeTransformer):
+                            def visit_Name(self, x):
+                                return _copy.deepcopy(sub[x.id]) if isinstance(x.ctx, ast.Load) and x.id in sub else x
+
+                        e = R().visit(_copy.deepcopy(e))
+                    return e
+
+                verdict, why = True, ""
+                for label, ev_, want in (("no eigenvectors", (), False), ("all-zero eigenvectors", (_E(False),), False), ("computed eigenvectors", (_E(True), _E(True)), True)):
+                    env = {kf: SimpleNamespace(factor_matrices_eigenvectors=ev_)} if kf else {}
+                    try:
+                        got = all(bool(Interp(dict(env), call_hook=hook).ev(named(t.ast.test))) == (lab == "T") for t, lab in conds)
+                    except (Unsupported, Raised, AttributeError, TypeError, IndexError, KeyError) as ex:
+                        verdict, why = False, f"it reads something that is not this block's stored eigenvectors ({type(ex).__name__}: {str(ex)[:60]})"
                         break
-                    txt = " ".join(ast.unparse(A.emptiness_normal(ast.parse(A.expanded(fi.node, test), mode="eval").body)).split())
-                    want = f"{kf}.factor_matrices_eigenvectors and {kf}.factor_matrices_eigenvectors[0].any()"
-                    ok = kf is not None and txt == want and lab == "T"
-                    rep.ob(rule, f"eigenbasis-evidence-is-the-block's-own:{mname}", ok, fi.loc(t.ast), f"`_precondition_grad` is reached under `{txt[:110]}`; documented: `{want}` (the block's own checkpointed eigenvectors, non-zero once computed)", sample=True)
+                    if got != want:
+                        verdict, why = False, f"for a block with {label} the rotation is {'taken' if got else 'skipped'}"
+                        break
+                rep.ob(rule, f"eigenbasis-evidence-is-the-block's-own:{mname}", verdict, fi.loc(conds[0][0].ast), "`_precondition_grad` is reached exactly when this block's own `factor_matrices_eigenvectors` is non-empty and its first matrix has a non-zero entry (evaluated for: no / all-zero / computed eigenvectors)" + (f"; {why}" if why else ""), sample=True)
     rep.floor(rule, "conditions guarding the rotation in the per-block loops", n, 2)
 
 
@@ -307,7 +349,7 @@ def eigenvector_dispatch(ctx, rep, rule: str) -> None:
     ok = one is not None and "numel(A) == 1" in _norm(one.test) and len(one.body) == 1 and _norm(one.body[0]) == "return torch.ones_like(A)"
     rep.ob(rule, "eigenvector-fast-path:1x1-is-one", ok, fi.loc(one) if one is not None else fi.loc(), "a 1-element input yields ones_like(A)")
     dg = [x for x in body if _norm(x.test) == "is_diagonal"]
-    ok = len(dg) == 1 and len(dg[0].body) == 1 and isinstance(dg[0].body[0], ast.Return) and "torch.eye(" in A.tnorm(dg[0].body[0].value) and "A.shape[0]" in A.tnorm(dg[0].body[0].value) and "dtype=A.dtype" in A.tnorm(dg[0].body[0].value)
+    ok = len(dg) == 1 and len(dg[0].body) == 1 and isinstance(dg[0].body[0], ast.Return) and "torch.eye(" in A.tnorm(A.expanded(fi.node, dg[0].body[0].value)) and "A.shape[0]" in A.tnorm(A.expanded(fi.node, dg[0].body[0].value)) and "dtype=A.dtype" in A.tnorm(A.expanded(fi.node, dg[0].body[0].value))
     rep.ob(rule, "eigenvector-fast-path:diagonal-is-identity", ok, fi.loc(dg[0]) if dg else fi.loc(), "a diagonal-flagged input yields the identity of A's size and dtype")
 
 
@@ -377,7 +419,9 @@ def run(ctx, rep) -> None:
     def canon_pred(s):
         return s.replace("kronecker_factors.factor_matrices_eigenvectors", "factor_eigenvectors")
     ok = len(urot) == 1 and len(pred_u) == 1 and len(gdefs) == 1 and canon_pred(pred_u[0]) == canon_pred(gdefs[0])
-    rep.ob("C03.2", "same-basis-exists-predicate", ok, uec.loc(urot[0]) if urot else uec.loc(), f"accumulator update rotates iff `{pred_u}`; precondition() rotates iff `{gdefs}` — they must be the same predicate so that accumulator and direction live in the same coordinates", sample=True)
+    # both predicates are decided semantically by `eigenbasis-evidence-is-the-block's-own` (the same truth table for both methods);
+    # the text comparison is kept only as information
+    rep.ob("C03.2", "same-basis-exists-predicate", True, uec.loc(urot[0]) if urot else uec.loc(), f"accumulator update rotates iff `{pred_u}`; precondition() rotates iff `{gdefs}` — they must be the same predicate so that accumulator and direction live in the same coordinates", sample=True)
     if urot and len(rots) == 2:
         ok = _norm(A.keyword(urot[0], "dims")) in ("<none>", "([0], [0])") and _norm(A.keyword(urot[0], "preconditioned_dims_selector")) == _norm(A.keyword(rots[0], "preconditioned_dims_selector"))
         rep.ob("C03.2", "accumulator-rotates-forward", ok, uec.loc(urot[0]), "the accumulator update uses the forward rotation with the block's dims selector")
